@@ -64,7 +64,13 @@ def prove_receive_file(src_root, ex: Explorer):
         state = {}
 
         def loop(it2, node, env):
-            env.vars['bytes_received'] = Sym(r0, 'int')
+            # the counter of received bytes is identified by its role, not by its name: the one local that is the integer 0 when the
+            # loop is first reached (the ghost `received` of the contract)
+            counters = [k for k, v in env.vars.items() if isinstance(v, int) and not isinstance(v, bool) and v == 0]
+            if len(counters) != 1:
+                raise Unsupported(f'receive_file: cannot identify the byte counter among {counters}')
+            cname = counters[0]
+            env.vars[cname] = Sym(r0, 'int')
             test = it2.eval(node.test, env)
             if not it2.decide(test):
                 state['exit'] = 'guard'
@@ -75,13 +81,13 @@ def prove_receive_file(src_root, ex: Explorer):
                 pass
             except BreakEx:
                 state['exit'] = 'break'
-                state['r1'] = env.lookup('bytes_received')
+                state['r1'] = env.lookup(cname)
                 return
             except ReturnEx:
                 state['exit'] = 'return'
-                state['r1'] = env.lookup('bytes_received')
+                state['r1'] = env.lookup(cname)
                 raise
-            state['r1'] = env.lookup('bytes_received')
+            state['r1'] = env.lookup(cname)
             state['exit'] = 'guard' if not it2.decide(it2.eval(node.test, env)) else 'continues'
         it.loop_specs[(f'{CONN}:PeerConnection.receive_file', 0)] = loop
         ctx.assume(n <= grant)            # receive_data contract: at most the requested number of bytes
